@@ -597,3 +597,15 @@ add("s-range-validator-operands-swapped", S, ["C07"], "dfols/params.py", "    el
     "    else:  # is integer\n        return (upper is None or upper >= val) and (lower is None or lower <= val)\n\n\ndef check_float")
 add("failing-parameter-not-recorded", F, ["C07"], "dfols/params.py", "            if not self.check_param(key, self.params[key], npt):\n                bad_keys.append(key)",
     "            if not self.check_param(key, self.params[key], npt):\n                pass", "C07-5d")
+# C07-22: instance attributes are set by the constructor
+add("run-counter-initialisation-dropped", F, ["C07"], "dfols/controller.py", "        self.last_successful_run = 0\n", "        pass\n", "C07-22")
+# C07-19c / C03-9b
+add("exit-of-a-restart-carried-round-the-loop", F, ["C07"], "dfols/solver.py",
+    "                    if exit_info is not None:\n                        nruns_so_far += 1\n                        break  # quit\n                    current_iter = -1\n                    nruns_so_far += 1\n                    rhoend = params(\"restarts.rhoend_scale\") * rhoend\n                    restart_auto_detect_full = False\n                    restart_auto_detect_delta = -1.0 * np.ones((params(\"restarts.auto_detect.history\"),))\n                    restart_auto_detect_chgJ = -1.0 * np.ones((params(\"restarts.auto_detect.history\"),))\n                    continue  # next iteration\n                else:\n                    exit_info = ExitInformation(EXIT_SUCCESS, \"rho has reached rhoend\")",
+    "                    if exit_info is not None:\n                        nruns_so_far += 1\n                        continue  # quit\n                    current_iter = -1\n                    nruns_so_far += 1\n                    rhoend = params(\"restarts.rhoend_scale\") * rhoend\n                    restart_auto_detect_full = False\n                    restart_auto_detect_delta = -1.0 * np.ones((params(\"restarts.auto_detect.history\"),))\n                    restart_auto_detect_chgJ = -1.0 * np.ones((params(\"restarts.auto_detect.history\"),))\n                    continue  # next iteration\n                else:\n                    exit_info = ExitInformation(EXIT_SUCCESS, \"rho has reached rhoend\")", "C07-19c")
+add("extra-samples-of-a-geometry-step-dropped", F, ["C03"], "dfols/controller.py",
+    "        for i in range(1, num_samples_run):\n            self.model.add_new_sample(knew, rvec_extra=rvec_list[i, :])\n\n        # Estimate actual reduction",
+    "        for i in range(1, num_samples_run):\n            pass\n\n        # Estimate actual reduction", "C03-9b")
+add("s-extra-samples-walked-as-rows", S, ["C03", "C17", "C04"], "dfols/controller.py",
+    "        for i in range(1, num_samples_run):\n            self.model.add_new_sample(knew, rvec_extra=rvec_list[i, :])\n\n        # Estimate actual reduction",
+    "        for rvec_extra in rvec_list[1:num_samples_run, :]:\n            self.model.add_new_sample(knew, rvec_extra=rvec_extra)\n\n        # Estimate actual reduction")
